@@ -301,8 +301,9 @@ func genBatch(rng *rand.Rand, name string, nScopes int, thorough bool, exoticKin
 //	       + a static-only prefix and a scope without prefix (correct everywhere: guards)
 //	c08wq  prefix words with %, $ and '                 exotic_prefix_percent (go, java, dart),
 //	       exotic_prefix_dollar (dart), exotic_prefix_single_quote (py, py:asyncio, py:tornado)
-//	c08wx  prefix word with a backslash, no Go           exotic_prefix_backslash (java, dart); the Go
-//	       generator aborts on that file (gofmt error), which is C11's subject
+//	c08wx  prefix word with a backslash                 exotic_prefix_backslash (java, dart; go: the
+//	       generator aborts on the file, gofmt error: no publisher at all)
+//	c08wy  prefix word with a double quote              exotic_prefix_double_quote (java; go as above)
 func witnessBatches() []*batch {
 	type w struct {
 		name, class string
@@ -358,6 +359,8 @@ func witnessBatches() []*batch {
 		{"plainLower", "camel", nil, "Pong", [][]string{{}}, "", nil},
 		{"Fixed", "Upper", []tok{{"foo", false}, {"bar", false}}, "Done", [][]string{{}}, "", nil},
 		{"Multi", "Upper", []tok{{"a", false}, {"user", true}, {"b", false}, {"tenant", true}}, "Both", [][]string{{"u1", "t1"}, {"same", "same"}}, "", nil},
+		// variable names with '_' and digits, one of them last (followed by the delimiter)
+		{"Ledger", "Upper", []tok{{"acct_id", true}, {"v2", false}, {"shard_9", true}}, "Posted", [][]string{{"a-1", "s_2"}}, "", nil},
 	})
 	pct := build(&batch{Name: "c08wp", Kind: "witness", Delims: []string{"%"}}, []w{
 		{"Lumen", "Upper", []tok{{"UP", false}, {"account", true}}, "Tick", [][]string{{"GQWW4yg"}}, "", nil},
@@ -370,12 +373,15 @@ func witnessBatches() []*batch {
 		// '%' in a static-only prefix is a plain literal: correct in every target
 		{"Cedar", "Upper", []tok{{"rate%", false}, {"x%%y", false}}, "Dune", [][]string{{}}, "exotic_prefix_percent", nil},
 		{"Onyx", "Upper", []tok{{"prefix$x", false}}, "Tango", [][]string{{}}, "exotic_prefix_dollar", nil},
-		{"Heron", "Upper", []tok{{"tenant", true}, {"a'", false}}, "Maple", [][]string{{"Uk"}}, "exotic_prefix_single_quote", []string{"dart"}},
+		{"Heron", "Upper", []tok{{"tenant", true}, {"a'", false}}, "Maple", [][]string{{"Uk"}}, "exotic_prefix_single_quote", nil},
 	})
-	bsl := build(&batch{Name: "c08wx", Kind: "witness", Delims: []string{"."}, Langs: []string{"java", "dart", "py", "py_asyncio", "py_tornado"}}, []w{
+	bsl := build(&batch{Name: "c08wx", Kind: "witness", Delims: []string{"."}}, []w{
 		{"Xenon", "Upper", []tok{{"v1\\", false}}, "Raven", [][]string{{}}, "exotic_prefix_backslash", nil},
 	})
-	return []*batch{core, pct, exo, bsl}
+	dq := build(&batch{Name: "c08wy", Kind: "witness", Delims: []string{"."}}, []w{
+		{"Quartz", "Upper", []tok{{"say\"hi", false}, {"zone", true}}, "Nova", [][]string{{"eu"}}, "exotic_prefix_double_quote", nil},
+	})
+	return []*batch{core, pct, exo, bsl, dq}
 }
 
 // scopeText renders one scope for witnesses.
